@@ -210,8 +210,8 @@ func c01CC(orig *packet.Packet, cc int) *hx.Failure {
 	next := (old + 1) % 16
 	if f := c01Setter(orig, "inc-cc", map[int]byte{3: 0x0F}, func(p *packet.Packet) { p.IncContinuityCounter() }, func(p *packet.Packet) bool {
 		// the in-place increment takes no value and is not among the statement's setters; ISO lets the counter of a packet
-		// without payload stand still, so there both outcomes are accepted (the copy-returning helpers are checked below)
-		return p.ContinuityCounter() == next || (orig[3]&0x10 == 0 && p.ContinuityCounter() == old)
+		// without payload stand still and leaves that of a null packet undefined, so there both outcomes are accepted (the copy-returning helpers are checked below)
+		return p.ContinuityCounter() == next || ((orig[3]&0x10 == 0 || packet.Pid(orig) == 0x1FFF) && p.ContinuityCounter() == old)
 	}); f != nil {
 		return f
 	}
